@@ -142,13 +142,14 @@ const (
 	OpMarshalRoundTrip     // MarshalText, UnmarshalText into a new Regexp value, match with it
 	OpReplaceFuncReentrant // ReplaceFunc whose evaluator calls the same Regexp (find, replace) for every match
 	OpWalkMixed            // one FindNextMatch walk with other calls on the same Regexp between its steps
+	OpReplaceFuncPanic     // ReplaceFunc whose evaluator panics at the k-th match (the caller recovers)
 	nOpKinds
 )
 
 var opNames = [...]string{"MatchString", "MatchRunes", "FindStringMatch+walk", "FindRunesMatch+walk", "FindStringMatchStartingAt+walk",
 	"FindRunesMatchStartingAt+walk", "FindAllStringIndex", "FindAllRunesIndex", "Replace", "ReplaceFunc", "Split", "Walk2",
 	"compat.MatchString", "compat.FindStringSubmatchIndex", "compat.FindAllStringSubmatch", "compat.FindAllIndex", "compat.FindReaderSubmatchIndex",
-	"GroupInfo", "Idle", "StopTimeoutClock", "Barrier", "PoolGC", "RegisterEngine+MustCompile", "Replace(startAt)", "MarshalText+UnmarshalText+MatchString", "ReplaceFunc(re-entrant evaluator)", "FindNextMatch walk with other calls in between"}
+	"GroupInfo", "Idle", "StopTimeoutClock", "Barrier", "PoolGC", "RegisterEngine+MustCompile", "Replace(startAt)", "MarshalText+UnmarshalText+MatchString", "ReplaceFunc(re-entrant evaluator)", "FindNextMatch walk with other calls in between", "ReplaceFunc(evaluator panics)"}
 
 type Op struct {
 	Kind      int       `json:"kind"`
